@@ -25,7 +25,7 @@ RULE = ("Hypothesis generates base ports (width 0..6, any per-bit inversion tupl
         "(harness-owned clocks, coincident edges). real: SingleEndedPort / DifferentialPort on IOPorts: composed "
         "port's io bits, invert tuple and direction == bit map; the netlist has exactly one IOBuffer cell per used pad "
         "bit with the right direction, a second buffer on an overlapping bit raises DriverConflict (also when both "
-        "buffers are created at the same source line), and the cells' o/i nets evaluated on the netlist equal o XOR "
+        "buffers are created at the same source line, and when one port expression names a pad bit twice), and the cells' o/i nets evaluated on the netlist equal o XOR "
         "mask at the pad (complemented on the n pad) and pad XOR mask at i. Non-trivial: a mixed inversion mask and "
         ">=2 port operations. Distinct by canonical hash of the case.")
 ASSUMPTIONS = [
@@ -56,20 +56,23 @@ def draw_bases(draw, n, real=False):
     return bases
 
 
-def draw_expr(draw, bases, free, ops):
-    """free: list of base indices not yet used. Returns expression descriptor."""
+def draw_expr(draw, bases, free, ops, reuse=False):
+    """free: list of base indices not yet used (with reuse: a base may appear several times). Returns expression
+    descriptor."""
     k = draw(INT(0, 5)) if ops > 0 and free else 0
     if k <= 1 or len(free) < 1:
-        b = free.pop(draw(INT(0, len(free) - 1)))
+        b = free[draw(INT(0, len(free) - 1))]
+        if not reuse:
+            free.remove(b)
         return ["base", b]
     if k == 2:
-        return ["inv", draw_expr(draw, bases, free, ops - 1)]
-    if k == 3 and len(free) >= 2:
-        a = draw_expr(draw, bases, free, ops - 1)
+        return ["inv", draw_expr(draw, bases, free, ops - 1, reuse)]
+    if k == 3 and (len(free) >= 2 or reuse):
+        a = draw_expr(draw, bases, free, ops - 1, reuse)
         if not free:
             return a
-        return ["add", a, draw_expr(draw, bases, free, ops - 1)]
-    e = draw_expr(draw, bases, free, ops - 1)
+        return ["add", a, draw_expr(draw, bases, free, ops - 1, reuse)]
+    e = draw_expr(draw, bases, free, ops - 1, reuse)
     if draw(BOOL):
         return ["idx", e, draw(INT(-7, 6))]
     sl = [draw(st.one_of(st.none(), INT(-7, 7))), draw(st.one_of(st.none(), INT(-7, 7))),
@@ -364,7 +367,8 @@ def real_cases(draw):
         if b["w"] == 0 and draw(BOOL):
             b["w"] = 1; b["inv"] = [draw(BOOL)]; b["inv_form"] = 2
     free = list(range(len(bases)))
-    e = draw_expr(draw, bases, free, draw(INT(0, 4)))
+    # with reuse, one port expression may name the same pad bit twice (port[0:2] + port[1:3]): to be refused
+    e = draw_expr(draw, bases, free, draw(INT(0, 4)), reuse=draw(INT(0, 3)) == 0)
     second = None
     if draw(INT(0, 2)) == 0:
         second = [draw(INT(0, len(bases) - 1)), draw(BOOL), PICK(draw, DIRS)]
@@ -428,13 +432,13 @@ def real_body(ctx, case):
         top_ports = []
         if bd != "i": top_ports += [buf.o, buf.oe]
         if bd != "o": top_ports += [buf.i]
-        overlap = False
+        overlap = self_overlap = len({(b, k) for b, k, _ in bits}) < len(bits)
         if case["second"] is not None:
             b2, whole, d2 = case["second"]
             if bases[b2]["w"] > 0 and buffer_allowed(bases[b2]["dir"], d2):
                 sp = ports[b2] if whole else ports[b2][0]
                 used2 = {(b2, k) for k in (range(bases[b2]["w"]) if whole else [0])}
-                overlap = bool(used2 & {(b, k) for b, k, _ in bits})
+                overlap = overlap or bool(used2 & {(b, k) for b, k, _ in bits})
                 # created through a helper so that both IOBufferInstances may share one source line
                 m.submodules.buf2 = buf2 = io.Buffer(d2, sp)
                 if d2 != "i": top_ports += [buf2.o, buf2.oe]
@@ -445,10 +449,11 @@ def real_body(ctx, case):
             nl = build_netlist(Fragment.get(m, None), top_ports)
         except DriverConflict:
             if overlap:
-                ctx.note(case, True, "real:overlap-rejected"); return
+                ctx.note(case, True, "real:overlap-rejected", *(["real:overlap-within-one-expression-rejected"]
+                                                                 if self_overlap else [])); return
             raise Mismatch("netlist-refused-disjoint-buffers", expr=e)
         if overlap:
-            raise Mismatch("overlapping-buffers-accepted", expr=e, second=case["second"])
+            raise Mismatch("overlapping-buffers-accepted", expr=e, second=case["second"], within_one_expression=self_overlap)
         # one IOBuffer cell per used pad bit
         name_of = {id(pt): nm for pt, nm in zip(iops, [("p", i) for i in range(len(iops))])}
         name_of.update({id(pt): nm for pt, nm in zip(ions, [("n", i) for i in range(len(ions))])})
@@ -533,5 +538,5 @@ def parts(tier):
 REQUIRED = ["sim:buf-i", "sim:buf-o", "sim:buf-io", "sim:port-io", "sim:mixed-mask", "sim:ops>=2", "sim:width0",
             "sim:negative-index", "sim:stepped-slice", "sim:buffer-direction-refused", "sim:expression-rejected",
             "ff:buf-i", "ff:buf-o", "ff:buf-io", "ff:mixed-mask", "ff:coincident-edges",
-            "real:single", "real:diff", "real:buf-io", "real:mixed-mask", "real:ops>=2", "real:overlap-rejected",
+            "real:single", "real:diff", "real:buf-io", "real:mixed-mask", "real:ops>=2", "real:overlap-rejected", "real:overlap-within-one-expression-rejected",
             "real:two-disjoint-buffers", "real:netlist-evaluated"]
